@@ -273,7 +273,7 @@ func TestC18(t *testing.T) {
 	r.Assume("model-checked Do histories use one attempt per call; a call becomes acquire at [call, request seen on the socket] plus close-or-release at [request seen, return] as observed at the socket (closed and no later request on it = closed by this call); calls the recorder cannot map are counted (skipped_unmodelled_call) and the history is not model-checked")
 	r.Assume("key attribution only: a surplus is filed under closeconn-slot-released-before-close when all surplus sockets were inside CloseConn (hc.close.enter seen, socket not closed) and, in that history, no socket was ever closed before its CloseConn reached hc.close.afterdec; any other surplus is live-conns-exceed-maxconns")
 
-	n := r.N(1000, 16000)
+	n := r.N(800, 12000)
 	ag := &agg{hits: map[string]int{}, sigs: map[uint64]struct{}{}, maxLive: map[string]int{}, otherErr: map[string]int{}}
 
 	jobs := make(chan porcJob, 256)
@@ -978,7 +978,8 @@ func (h *hist) doWorker(g int, rnd *rand.Rand) {
 		switch {
 		case err == nil:
 			h.seen.okResp.Add(1)
-			okBody := body == ids || strings.HasPrefix(body, ids+"|") || (!bodyComplete && strings.HasPrefix(ids+"|", body))
+			// (a streamed bad-chunk response carries no id: its error only shows while the body is read)
+			okBody := body == ids || strings.HasPrefix(body, ids+"|") || (!bodyComplete && strings.HasPrefix(ids+"|", body)) || faultyKind == actBadChunk
 			if !okBody || resp.StatusCode() != 200 {
 				h.net.violate("response-for-other-request", fmt.Sprintf("request %d received status %d body %.40q", id, resp.StatusCode(), body), map[string]any{"config": cfg.String(), "request": id, "body": body})
 			}
